@@ -48,7 +48,6 @@ THEOREMS = [
     'C17_to_fillid_no_opt',
     'C17_lattice_dims_exact',
     'C17_lattice_dims_rejected',
-    'C17_lattice_trailing_range_refuted',
     'C17_lattice_nsurf_exact',
     'C17_lattice_ranges_checked',
     'C17_facet_range_rejected',
@@ -122,8 +121,6 @@ def classify(cls, where, deck):
             return 'fill_array_surplus_2_void'
     if cls == 'fill_array_surplus_tr':
         return 'fill_array_surplus_tr'
-    if cls == 'lattice_trailing':
-        return 'lattice_trailing_range_unchecked'
     if cls == 'facet_range_skipped':
         return 'facet_unchecked_in_skipped_cell'
     if cls == 'facet_zero':
@@ -148,10 +145,6 @@ WITNESSES = {
     'fill_array_surplus_2_void': (
         't\n1 0 -1 2 u=1 lat=1 fill=0:1 0:0 0:0 0 0 40 40 imp:n=1\n'
         '2 0 -5 6 fill=1 imp:n=1\n3 0 -6 imp:n=1\n4 0 5 imp:n=0\n\n'
-        '1 px 1\n2 px -1\n5 so 10\n6 so 0.5\n\n', []),
-    'lattice_trailing_range_unchecked': (
-        't\n1 0 -1 2 u=1 lat=1 fill=0:0 0:0 0:1 2 2 imp:n=1\n'
-        '2 0 -5 fill=1 imp:n=1\n3 0 -6 u=2 imp:n=1\n4 0 5 imp:n=0\n\n'
         '1 px 1\n2 px -1\n5 so 10\n6 so 0.5\n\n', []),
     'facet_unchecked_in_skipped_cell': (
         't\n1 0 -1 imp:n=1\n2 0 1 -2.9 imp:n=0\n3 0 2 imp:n=0\n\n'
@@ -195,6 +188,10 @@ CORPUS = [
     ('lattice_dims_few', _LAT.format(fill='fill=0:1 2 2'), [], 'ELattice'),
     ('lattice_dims_many', _LAT.format(fill='fill=0:1 0:1 0:1 2 7r'), [],
      'ELattice'),
+    ('lattice_trailing', _LAT.format(fill='fill=0:0 0:1 0:1 2 3r'), [],
+     'ELattice'),
+    ('control_leading_onepoint', _LAT.format(fill='fill=0:0 0:1 0:0 2 2'), [],
+     None),
     ('latopt_dims', _LAT.format(fill='fill=2'), ['--lattice', '1,0:1'],
      'ELattice'),
     ('latopt_malformed', _LAT.format(fill='fill=2'), ['--lattice', '1,0-1,0:1'],
